@@ -27,7 +27,7 @@ import core
 from ser import rat, q
 
 LEAN_MODULE = "Optyx.Props.C09b"
-EXTRA_MODULES = ["Optyx.Props.PinsC09", "Optyx.Props.BuildTie"]   # transcription anchors (harness/source_pins.py)
+EXTRA_MODULES = ["Optyx.Props.PinsC09", "Optyx.Props.BuildTie", "Optyx.Props.ClosurePathTie"]   # transcription anchors (harness/source_pins.py)
 THEOREMS = [
     "Optyx.Props.C09b.scipy_inputs_faithful",
     "Optyx.Props.C09b.compiled_pair_faithful",
@@ -48,6 +48,10 @@ THEOREMS = [
     "Optyx.Props.C09.maximize_sign",
     "Optyx.Props.BuildTie.compile_step",
     "Optyx.Props.BuildTie.compileVec_step",
+    "Optyx.Props.ClosurePathTie.powerGradient_path",
+    "Optyx.Props.ClosurePathTie.unaryGradient_path",
+    "Optyx.Props.ClosurePathTie.compileGradient_path",
+    "Optyx.Props.ClosurePathTie.compileHessian_path",
     "Optyx.Props.PinsC09.anchors",
 ]
 ASSUMPTIONS = [
